@@ -134,6 +134,32 @@ def run(ctx):
         ok = len(stores.get(key, [])) == 1
         where = stores[key][0][0].where(stores[key][0][1]) if ok else wi.where()
         ctx.check("C04.R2", f"self.metadata[{key!r}] is assigned unconditionally-overwriting", ok, where, f"self.metadata[{key!r}] = ... ({len(stores.get(key, []))} plain stores)", f"the header entry {key} must be overwritten with this writer's value (a setdefault/update would let a stale caller-supplied value describe the file)")
+    # once a reserved entry is stored nothing may overwrite it: no update / rebinding / computed-key store of the
+    # metadata is reachable after the store (in Writer.__init__: after the base constructor, which stores avro.schema)
+    def meta_mutations(f):
+        out = []
+        for n in walk_local(f.node):
+            if isinstance(n, ast.Call) and isinstance(n.func, ast.Attribute) and norm(n.func.value) == "self.metadata" and n.func.attr in ("update", "setdefault", "pop", "popitem", "clear", "__setitem__", "__delitem__", "__ior__"):
+                out.append(n)
+            elif isinstance(n, (ast.Assign, ast.AugAssign, ast.AnnAssign, ast.Delete)):
+                tgts = n.targets if isinstance(n, (ast.Assign, ast.Delete)) else [n.target]
+                for t in tgts:
+                    if norm(t) == "self.metadata":
+                        out.append(n)
+                    elif isinstance(t, ast.Subscript) and norm(t.value) == "self.metadata" and not (isinstance(t.slice, ast.Constant) and isinstance(n, ast.Assign)):
+                        out.append(n)
+        return out
+
+    anchors = [(f, n, f"self.metadata[{key!r}]") for key in (spec.SCHEMA_KEY, spec.CODEC_KEY) for (f, n) in stores.get(key, [])]
+    for c in walk_local(wi.node):
+        if isinstance(c, ast.Call) and norm(c.func) in ("super().__init__", "GenericWriter.__init__"):
+            anchors.append((wi, c, "the base constructor (which stores avro.schema)"))
+    for f, n, what in anchors:
+        cfg = cfg_of(f)
+        after = cfg.reachable_from(cfg.node_of(n), skip_labels=("exc",))
+        late = [m for m in meta_mutations(f) if m is not n and cfg.node_of(m) in after and not (isinstance(m, ast.Assign) and isinstance(m.targets[0], ast.Subscript) and isinstance(m.targets[0].slice, ast.Constant))]
+        late += [m for m in walk_local(f.node) if isinstance(m, ast.Assign) and m is not n and isinstance(m.targets[0], ast.Subscript) and norm(m.targets[0].value) == "self.metadata" and isinstance(m.targets[0].slice, ast.Constant) and m.targets[0].slice.value in (spec.SCHEMA_KEY, spec.CODEC_KEY) and cfg.node_of(m) in after and (f, m) not in [(g, x) for v in stores.values() for (g, x) in v]]
+        ctx.check("C04.R2", f"nothing overwrites the header metadata after {what} is stored", not late, f.where(late[0]) if late else f.where(n), f"{f.qualname}: {norm(late[0])[:100]}" if late else "", "a caller-supplied entry named avro.schema / avro.codec (or any later bulk update) replaces the writer's own value: the file describes itself with a schema or codec it was not written with")
     if spec.CODEC_KEY in stores and len(stores[spec.CODEC_KEY]) == 1:
         f, n = stores[spec.CODEC_KEY][0]
         cfg = cfg_of(f)
